@@ -18,8 +18,10 @@ def write_if_changed(path, text):
     if os.path.exists(path) and open(path).read() == text:
         return False
     os.makedirs(os.path.dirname(path), exist_ok=True)
-    with open(path, "w") as f:
+    tmp = "%s.%d.tmp" % (path, os.getpid())   # atomic: checks of several properties may run in parallel
+    with open(tmp, "w") as f:
         f.write(text)
+    os.replace(tmp, path)
     return True
 
 
